@@ -226,6 +226,36 @@ func buildAPK(env *Env, v Variant) ([]*Artifact, error) {
 		a.Semantic = append(a.Semantic, SemMut{Class: "strip-signature-block", Site: "apk-signing-block", Data: zipBuild(signed, z.members(), o), Assert: true,
 			Why: "the v1 signature file carries X-Android-APK-Signed: 2, so a missing v2 block is a downgrade"})
 	}
+	// downgrade with the block left in place: the v2 pair is given the id of the
+	// padding pair (so the block holds no v2 signature any more) and a byte that
+	// only v2 covers - a local header's modification time - is changed. The v1
+	// signature still announces v2.
+	{
+		d := append([]byte{}, signed...)
+		sb := z.SigBlock
+		p, end := sb.Off+8, sb.End()-24
+		retagged := false
+		for p < end {
+			l := int(le.Uint64(d[p:]))
+			if l < 4 || p+8+l > end {
+				break
+			}
+			if le.Uint32(d[p+8:]) == apkV2ID {
+				le.PutUint32(d[p+8:], 0x42726577)
+				retagged = true
+			}
+			p += 8 + l
+		}
+		if retagged {
+			a.Semantic = append(a.Semantic, SemMut{Class: "strip-signature-block", Site: "v2-pair-retagged-as-padding", Data: append([]byte{}, d...), Assert: true,
+				Why: "the v1 signature file carries X-Android-APK-Signed: 2; a signing block without any v2 signature is the same downgrade as no block"})
+			if len(z.Entries) > 0 {
+				d[z.Entries[0].LH.Off+10] ^= 0x21 // last-modified time of the first local header
+				a.Semantic = append(a.Semantic, SemMut{Class: "strip-signature-block", Site: "v2-pair-retagged-as-padding+local-header-changed", Data: d, Assert: true,
+					Why: "nothing covers the changed local header once the v2 signature is out of the way"})
+			}
+		}
+	}
 	// graft the sibling's signing block
 	if sz, err := zipParse(sib, len(sib)); err == nil && sz.SigBlock.Len > 0 {
 		o := z.opts()
